@@ -41,6 +41,9 @@ def make_order(spec):
         o = ConeOrder3D(spec[1])
     elif kind == "ice":
         o = ConeOrder3DIceCream(spec[1], spec[2])
+    elif kind == "Wint":
+        # integer-DTYPE cone matrix, as in the class docstring (np.array([[1, 0], [0, 1]]))
+        o = PolyhedralConeOrder(OrderingCone(np.array(spec[1], dtype=int)))
     elif kind == "W":
         W = np.array(spec[1], dtype=float)
         if len(spec) > 2 and spec[2] == "unit":
@@ -111,6 +114,8 @@ def family_3d(thorough=False):
 
 
 def name(spec):
+    if spec[0] == "Wint":
+        return "Wint" + repr(spec[1]).replace(" ", "")
     if spec[0] == "W":
         return "W" + repr(spec[1]).replace(" ", "")
     return "-".join(str(s) for s in spec)
